@@ -40,7 +40,7 @@ class Experiment:
                          'Fluorescence Channels': ', '.join(d['fl']), 'Time Channel': d['time']})
         return pd.DataFrame(rows).set_index('ID')
 
-    def write_fcs(self, name, iid, kind='cells', n=600, voltage=450, log_fl=True, seed=0, linear_scatter=False, nonneg=False):
+    def write_fcs(self, name, iid, kind='cells', n=600, voltage=450, log_fl=True, seed=0, linear_scatter=False, nonneg=False, scatter_out=False):
         d = self.inst[iid]
         r = np.random.RandomState(seed)
         names = [d['fsc'], d['ssc']] + d['fl'] + [d['time']]
@@ -68,8 +68,16 @@ class Experiment:
             ev = [[int(round(v)) for v in row] for row in data]
             widths = [16] * D
         else:
-            if not nonneg:
+            if nonneg == 'zero':
+                # background subtracted and clipped at zero: exact zeros, no negative value
+                data[:, 2:2 + len(d['fl'])] = np.maximum(data[:, 2:2 + len(d['fl'])] - 350 * (kind != 'beads'), 0.)
+            elif not nonneg:
                 data[:, 2:2 + len(d['fl'])] -= 350 * (kind != 'beads')     # floats may be negative (background subtracted)
+            if scatter_out and kind != 'beads':
+                # float scatter values outside the declared range (above $PnR-1, negative), spread over the acquisition
+                idx = r.choice(np.arange(260, n - 110), size=max(4, n // 25), replace=False)
+                data[idx[::2], 0] = res + r.uniform(0, 400, len(idx[::2]))
+                data[idx[1::2], 1] = -r.uniform(50, 300, len(idx[1::2]))
             ev = [[f32(v) for v in row] for row in data]
             widths = [32] * D
         pne = {}
